@@ -1,11 +1,14 @@
 import D2V.Model.Links
+import D2V.Proofs.RelLemmas
+import D2V.Gen.LinksCfg
 /-! C35 — Board links resolve to existing boards and are rewritten to the right files. -/
 namespace D2V.Links
 open D2V.Path
 
-/-- **self_link_dropped**: a non-remote link that spells the path of the object's own board is dropped. -/
-theorem self_link_dropped (root : Board) (ida : List String) (link : List Seg) (h : link.map (·.s) = ida) :
-    validateLink root ida false link = false := by
+/-- **self_link_dropped**: a non-remote link that spells the board path `Graph.IDA()` yields for the object's own
+    board is dropped (any variant of the code). -/
+theorem self_link_dropped (cfg : Cfg) (root : Board) (ida : List String) (link : List Seg) (h : link.map (·.s) = ida) :
+    validateLink cfg root ida false link = false := by
   unfold validateLink
   cases link with
   | nil => rfl
@@ -17,10 +20,24 @@ theorem self_link_dropped (root : Board) (ida : List String) (link : List Seg) (
       · rfl
       · simp [h]
 
+/-- with a kind word per level `Graph.IDA()` is the board's path, so the dropped link is the real self link -/
+theorem graphIDA_perLevel (cfg : Cfg) (h : cfg.idaPerLevel = true) (path : List String) : graphIDA cfg path = path := by
+  simp [graphIDA, h]
+
+/-- **C35_cx_nested_self_link** (legacy `Graph.IDA`): for the board `root.layers.a.layers.b` it yields
+    `[root, layers, a, b]`, so the link `root.layers.a.layers.b` on an object of that board is kept. -/
+theorem C35_cx_nested_self_link :
+    graphIDA Cfg.legacy ["root", "layers", "a", "layers", "b"] = ["root", "layers", "a", "b"] ∧
+    (let t : Board := .mk [] false [.mk "a".toList false [.mk "b".toList false [] [] []] [] []] [] []
+     let l : List Seg := [⟨"root", true⟩, ⟨"layers", true⟩, ⟨"a", true⟩, ⟨"layers", true⟩, ⟨"b", true⟩]
+     validateLink Cfg.legacy t (graphIDA Cfg.legacy ["root", "layers", "a", "layers", "b"]) false l = true ∧
+     validateLink Cfg.fixed t (graphIDA Cfg.fixed ["root", "layers", "a", "layers", "b"]) false l = false) := by
+  decide
+
 /-- a kept non-remote link starts with `root` and is found by `hasBoard` -/
-theorem kept_link_hasBoard (root : Board) (ida : List String) (link : List Seg)
-    (h : validateLink root ida false link = true) :
-    (∃ x r, link = x :: r ∧ x.s = "root") ∧ hasBoard (link.length + 1) root link = true ∧ link.map (·.s) ≠ ida := by
+theorem kept_link_hasBoard (cfg : Cfg) (root : Board) (ida : List String) (link : List Seg)
+    (h : validateLink cfg root ida false link = true) :
+    (∃ x r, link = x :: r ∧ x.s = "root") ∧ hasBoard cfg (link.length + 1) root link = true ∧ link.map (·.s) ≠ ida := by
   unfold validateLink at h
   cases link with
   | nil => simp at h
@@ -37,33 +54,27 @@ theorem kept_link_hasBoard (root : Board) (ida : List String) (link : List Seg)
         · rename_i hs
           refine ⟨⟨x, r, rfl, by simpa using hx⟩, by simpa using hb, by simpa using hs⟩
 
-/-- no element is an unquoted `root` (such an element would be skipped by `hasBoard`) -/
-def noRoot (l : List Seg) : Prop := ∀ x ∈ l, ¬ (x.s = "root" ∧ x.unq = true)
+/-- no element is an unquoted `root` (such an element would be skipped by the legacy `hasBoard`) -/
+def noRoot (l : List Seg) : Prop := ∀ x ∈ l, isRootSeg x = false
 
-/-- on paths made of (kind, name) pairs `hasBoard` agrees with the strict reading -/
-theorem hasBoard_strict : ∀ (f : Nat) (b : Board) (l : List Seg), l.length % 2 = 0 → noRoot l →
-    hasBoard f b l = true → (resolveStrict b l).isSome = true := by
+/-- on paths made of (kind, name) pairs without `root` elements every variant of `hasBoard` agrees with the strict reading -/
+theorem hasBoardPath_strict (cfg : Cfg) : ∀ (f : Nat) (b : Board) (l : List Seg), l.length % 2 = 0 → noRoot l →
+    hasBoardPath cfg f b l = true → (resolveStrict b l).isSome = true := by
   intro f
   induction f with
   | zero =>
     intro b l _ _ h
     cases l with
     | nil => simp [resolveStrict]
-    | cons x r => simp [hasBoard] at h
+    | cons x r => simp [hasBoardPath] at h
   | succ f ih =>
     intro b l hlen hnr h
     match l, hlen, hnr, h with
     | [], _, _, _ => simp [resolveStrict]
     | [x], hlen, _, _ => simp at hlen
     | x :: nx :: rest, hlen, hnr, h =>
-      have hx : ¬ (x.s = "root" ∧ x.unq = true) := hnr x (by simp)
-      have hx' : (x.s == "root" && x.unq) = false := by
-        cases hb : (x.s == "root" && x.unq) with
-        | false => rfl
-        | true =>
-          simp only [Bool.and_eq_true, beq_iff_eq] at hb
-          exact absurd hb hx
-      simp only [hasBoard, hx', Bool.false_eq_true, if_false] at h
+      have hx : isRootSeg x = false := hnr x (by simp)
+      simp only [hasBoardPath, hx, Bool.and_false, Bool.false_eq_true, if_false] at h
       simp only [resolveStrict]
       cases hfb : findBoard nx.s (kidsOf b x.s) with
       | none => simp [hfb] at h
@@ -74,30 +85,135 @@ theorem hasBoard_strict : ∀ (f : Nat) (b : Board) (l : List Seg), l.length % 2
         · intro y hy; exact hnr y (by simp [hy])
         · exact h
 
-/-- **link_absolute_exists_or_dropped** (partial): a link that survives validation and has the shape
-    `root.(kind.name)*` with no further `root` element names a board that exists, and is not the object's own board.
-    (Outside that shape `hasBoard` is more liberal than the board tree: see `C35_cx_odd_tail`, `C35_cx_root_root`.) -/
-theorem link_absolute_exists_or_dropped_partial (root : Board) (ida : List String) (link : List Seg)
-    (hshape : link.length % 2 = 1) (hnr : noRoot link.tail)
-    (h : validateLink root ida false link = true) :
+theorem hasBoardPath_root_skip (cfg : Cfg) (hc : cfg.singleRoot = false) (f : Nat) (b : Board) (x : Seg) (r : List Seg)
+    (hr : isRootSeg x = true) : hasBoardPath cfg (f + 1) b (x :: r) = hasBoardPath cfg f b r := by
+  simp [hasBoardPath, hc, hr]
+
+/-- the fixed `hasBoardPath` IS the strict reading, on every path -/
+theorem hasBoardPath_fixed (cfg : Cfg) (h1 : cfg.danglingFalse = true) (h2 : cfg.singleRoot = true) :
+    ∀ (f : Nat) (b : Board) (l : List Seg), hasBoardPath cfg f b l = true → (resolveStrict b l).isSome = true := by
+  intro f
+  induction f with
+  | zero =>
+    intro b l h
+    cases l with
+    | nil => simp [resolveStrict]
+    | cons x r => simp [hasBoardPath] at h
+  | succ f ih =>
+    intro b l h
+    match l, h with
+    | [], _ => simp [resolveStrict]
+    | [x], h => simp [hasBoardPath, h1, h2] at h
+    | x :: nx :: rest, h =>
+      simp only [hasBoardPath, h2, Bool.not_true, Bool.false_and, Bool.false_eq_true, if_false] at h
+      simp only [resolveStrict]
+      cases hfb : findBoard nx.s (kidsOf b x.s) with
+      | none => simp [hfb] at h
+      | some c =>
+        simp only [hfb] at h ⊢
+        exact ih c rest h
+
+/-- **link_absolute_exists_or_dropped** (full strength, for the code with `hasBoard` returning false on a dangling
+    element and stripping a single leading `root`): every non-remote link that survives validation is `root` followed
+    by (kind, name) pairs that name an existing board, and differs from `Graph.IDA()` of the object's own board. -/
+theorem link_absolute_exists_or_dropped (cfg : Cfg) (h1 : cfg.danglingFalse = true) (h2 : cfg.singleRoot = true)
+    (root : Board) (ida : List String) (link : List Seg)
+    (h : validateLink cfg root ida false link = true) :
     existsStrict root link = true ∧ link.map (·.s) ≠ ida := by
-  obtain ⟨⟨x, r, hl, hx⟩, hb, hs⟩ := kept_link_hasBoard root ida link h
+  obtain ⟨⟨x, r, hl, hx⟩, hb, hs⟩ := kept_link_hasBoard cfg root ida link h
+  subst hl
+  refine ⟨?_, hs⟩
+  simp only [existsStrict, hx, beq_self_eq_true, Bool.true_and]
+  simp only [hasBoard, h2, if_true] at hb
+  by_cases hr : isRootSeg x = true
+  · simp only [hr, if_true] at hb
+    exact hasBoardPath_fixed cfg h1 h2 _ root r hb
+  · have hr' : isRootSeg x = false := by simpa using hr
+    simp only [hr', Bool.false_eq_true, if_false] at hb
+    -- a quoted "root" is taken as a kind word, which selects no sub-boards
+    cases r with
+    | nil => simp [resolveStrict]
+    | cons nx rest =>
+      simp only [hasBoardPath, h2, Bool.not_true, Bool.false_and, Bool.false_eq_true, if_false] at hb
+      simp [hx, kidsOf, findBoard] at hb
+
+/-- **link_absolute_exists_or_dropped_partial** (any variant, in particular the legacy code): on links of the shape
+    `root.(kind.name)*` without further `root` elements a surviving link names an existing board.  Outside that shape
+    the legacy `hasBoard` is more liberal than the board tree: `C35_cx_odd_tail`, `C35_cx_root_root`. -/
+theorem link_absolute_exists_or_dropped_partial (cfg : Cfg) (root : Board) (ida : List String) (link : List Seg)
+    (hshape : link.length % 2 = 1) (hnr : noRoot link.tail)
+    (h : validateLink cfg root ida false link = true) :
+    existsStrict root link = true ∧ link.map (·.s) ≠ ida := by
+  obtain ⟨⟨x, r, hl, hx⟩, hb, hs⟩ := kept_link_hasBoard cfg root ida link h
   subst hl
   refine ⟨?_, hs⟩
   simp only [existsStrict, hx, beq_self_eq_true, Bool.true_and]
   simp only [List.tail_cons] at hnr
   have hlen : r.length % 2 = 0 := by simp at hshape; omega
-  -- hasBoard on x :: r : either x is an unquoted root (skipped) or the first element is taken as a kind word "root"
-  simp only [hasBoard] at hb
-  by_cases hu : x.unq = true
-  · simp only [hx, hu, beq_self_eq_true, Bool.and_self, if_true] at hb
-    exact hasBoard_strict _ root r hlen hnr hb
-  · have hu' : x.unq = false := by simpa using hu
-    simp only [hx, hu', Bool.and_false, Bool.false_eq_true, if_false] at hb
-    -- a quoted "root": treated as a kind word, which matches no kind
+  have key : ∀ f, hasBoardPath cfg (f + 1) root (x :: r) = true → isRootSeg x = false → (resolveStrict root r).isSome = true := by
+    intro f hb hr
     cases r with
     | nil => simp [resolveStrict]
-    | cons nx rest => simp [findBoard, kidsOf] at hb
+    | cons nx rest =>
+      simp only [hasBoardPath, hr, Bool.and_false, Bool.false_eq_true, if_false] at hb
+      simp [hx, kidsOf, findBoard] at hb
+  by_cases hr : isRootSeg x = true
+  · unfold hasBoard at hb
+    cases hc : cfg.singleRoot with
+    | true =>
+      simp only [hc, if_true, hr] at hb
+      exact hasBoardPath_strict cfg _ root r hlen hnr hb
+    | false =>
+      simp only [hc, Bool.false_eq_true, if_false] at hb
+      rw [hasBoardPath_root_skip cfg hc _ root x r hr] at hb
+      exact hasBoardPath_strict cfg _ root r hlen hnr hb
+  · have hr' : isRootSeg x = false := by simpa using hr
+    unfold hasBoard at hb
+    cases hc : cfg.singleRoot with
+    | true =>
+      simp only [hc, if_true, hr', Bool.false_eq_true, if_false] at hb
+      exact key _ hb hr'
+    | false =>
+      simp only [hc, Bool.false_eq_true, if_false] at hb
+      exact key _ hb hr'
+
+/-- **relink_points_to_file**: when the current board's file is `/D…/f` and the linked board's file is `/V…` (cleaned
+    absolute paths of ordinary elements, as `resolveLinks` produces them for safe board names — C34's bridge lemma),
+    `relink` replaces the link by a relative path `r` which, resolved against the directory of the file that contains
+    it, is exactly the linked board's file: `Join(Dir(file cur), r) = file target`. -/
+theorem relink_points_to_file (m : List (Str × Str)) (cur key link : Str) (D V : List Str) (f : Str)
+    (hD : ∀ c ∈ D, Normal c) (hf : Normal f) (hV : ∀ c ∈ V, Normal c) (hne : D ≠ V)
+    (hc : mapLookup m cur = some ('/' :: inter (D ++ [f])))
+    (hv : mapLookup m key = some ('/' :: inter V)) :
+    ∃ r, relinkOneK m cur key link = some r ∧ join [dir ('/' :: inter (D ++ [f])), r] = '/' :: inter V := by
+  unfold relinkOneK
+  rw [hv, hc]
+  simp only
+  rw [dir_abs D f hD hf, rel_abs D V hD hV hne]
+  refine ⟨_, rfl, ?_⟩
+  obtain ⟨C, hDC, hVC, _⟩ := dropCommon_spec D V
+  have hCn : ∀ c ∈ C, Normal c := by intro c hc; apply hD; rw [hDC]; simp [hc]
+  have hrb : ∀ c ∈ (dropCommon D V).1, Normal c := by intro c hc; apply hD; rw [hDC]; simp [hc]
+  have hrt : ∀ c ∈ (dropCommon D V).2, Normal c := by intro c hc; apply hV; rw [hVC]; simp [hc]
+  have hne' : (dropCommon D V).1.map (fun _ => dotdot) ++ (dropCommon D V).2 ≠ [] := by
+    intro h
+    have h1 : (dropCommon D V).1 = [] := by
+      have := (List.append_eq_nil_iff.mp h).1
+      simpa using this
+    have h2 : (dropCommon D V).2 = [] := (List.append_eq_nil_iff.mp h).2
+    apply hne
+    have e1 : D = C := by rw [hDC, h1]; simp
+    have e2 : V = C := by rw [hVC, h2]; simp
+    rw [e1, e2]
+  have hj := join_rel C _ _ hCn hrb hrt hne'
+  rw [← hDC, ← hVC] at hj
+  exact hj
+
+/-- a link that is not a key of the board ↦ file map is left alone (remote links, and — see the counterexamples —
+    board links whose spelling differs from the key) -/
+theorem relink_other_untouched (m : List (Str × Str)) (cur key link : Str) (h : mapLookup m key = none) :
+    relinkOneK m cur key link = some link := by
+  simp [relinkOneK, h]
 
 def b0 : Board := .mk [] false [.mk "x".toList false [] [] []] [] []
 def sg (s : String) : Seg := { s := s, unq := true }
@@ -107,13 +223,15 @@ def sg (s : String) : Seg := { s := s, unq := true }
     exists (replayed on the CLI: the href stays `root.layers.x.x`). -/
 theorem C35_cx_odd_tail :
     compileLink [sg "root", sg "a"] [sg "layers", sg "x", sg "x"] = some [sg "root", sg "layers", sg "x", sg "x"] ∧
-    validateLink b0 ["root"] false [sg "root", sg "layers", sg "x", sg "x"] = true ∧
+    validateLink Cfg.legacy b0 ["root"] false [sg "root", sg "layers", sg "x", sg "x"] = true ∧
+    validateLink Cfg.fixed b0 ["root"] false [sg "root", sg "layers", sg "x", sg "x"] = false ∧
     existsStrict b0 [sg "root", sg "layers", sg "x", sg "x"] = false := by
   decide
 
 /-- **C35_cx_root_root**: `hasBoard` skips any number of `root` elements, the file map does not. -/
 theorem C35_cx_root_root :
-    validateLink b0 ["root"] false [sg "root", sg "root", sg "layers", sg "x"] = true ∧
+    validateLink Cfg.legacy b0 ["root"] false [sg "root", sg "root", sg "layers", sg "x"] = true ∧
+    validateLink Cfg.fixed b0 ["root"] false [sg "root", sg "root", sg "layers", sg "x"] = false ∧
     existsStrict b0 [sg "root", sg "root", sg "layers", sg "x"] = false := by
   decide
 
@@ -125,14 +243,36 @@ theorem C35_cx_quoted_name :
     let m := linkMapB "root".toList "/w/out/o.svg".toList t
     m.map (fun kv => (String.ofList kv.1, String.ofList kv.2)) =
         [("root", "/w/out/o/index.svg"), ("root.layers.p.q", "/w/out/o/p.q.svg")] ∧
-    relinkOne m "root".toList "root.layers.\"p.q\"".toList = some "root.layers.\"p.q\"".toList := by
+    relinkOne m "root".toList "root.layers.\"p.q\"".toList = some "root.layers.\"p.q\"".toList ∧
+    -- comparing element values instead (the `relinkByValue` variant) finds the file
+    relinkOneK m "root".toList
+        (relinkKey Cfg.fixed "root.layers.\"p.q\"" (some [⟨"root", true⟩, ⟨"layers", true⟩, ⟨"p.q", false⟩])).toList
+        "root.layers.\"p.q\"".toList = some "p.q.svg".toList := by
   decide
 
 /-- satisfiable: an ordinary link survives, exists, and is rewritten to the relative file name -/
 example :
-    validateLink b0 ["root"] false [sg "root", sg "layers", sg "x"] = true ∧
+    validateLink Cfg.legacy b0 ["root"] false [sg "root", sg "layers", sg "x"] = true ∧
+    validateLink Cfg.fixed b0 ["root"] false [sg "root", sg "layers", sg "x"] = true ∧
     existsStrict b0 [sg "root", sg "layers", sg "x"] = true ∧
     relinkOne (linkMapB "root".toList "/w/out/o.svg".toList b0) "root".toList "root.layers.x".toList = some "x.svg".toList := by
   decide
+
+/-- the variant of the code in the tree under test (tie R) -/
+def cfgNow : Cfg :=
+  ⟨Gen.LinksCfg.danglingFalse, Gen.LinksCfg.singleRoot, Gen.LinksCfg.idaPerLevel, Gen.LinksCfg.relinkByValue⟩
+
+/-- **C35_links_exist_now**: for the tree under test — the flags are regenerated from its source — either `hasBoard`
+    is the strict reading and every surviving link names an existing board (full strength), or the legacy `hasBoard`
+    is in place and the partial theorem with the counterexamples applies. -/
+theorem C35_links_exist_now :
+    ((cfgNow.danglingFalse = true ∧ cfgNow.singleRoot = true) ∧
+      ∀ root ida link, validateLink cfgNow root ida false link = true → existsStrict root link = true ∧ link.map (·.s) ≠ ida) ∨
+    (¬ (cfgNow.danglingFalse = true ∧ cfgNow.singleRoot = true) ∧
+      ∀ root ida link, link.length % 2 = 1 → noRoot link.tail →
+        validateLink cfgNow root ida false link = true → existsStrict root link = true ∧ link.map (·.s) ≠ ida) := by
+  by_cases h : cfgNow.danglingFalse = true ∧ cfgNow.singleRoot = true
+  · exact Or.inl ⟨h, fun root ida link hv => link_absolute_exists_or_dropped cfgNow h.1 h.2 root ida link hv⟩
+  · exact Or.inr ⟨h, fun root ida link hs hn hv => link_absolute_exists_or_dropped_partial cfgNow root ida link hs hn hv⟩
 
 end D2V.Links
